@@ -278,6 +278,26 @@ def generate(ctx):
                     dict(bomb=1000, hookfail=3), dict(bomb=100000000, hookfail=2), dict(bomb=50000, layers=1)):
             add_cases(cases, metas, ctx, "bomb", zeros, tokens, actual, cfg, framings=("cl", "chunked") if th else ("cl",),
                       single_cut_limit=0, n_random=1, one_byte_limit=1500)
+    # 5b. the ratio test at its edge: bomb limit 0 so that "decompressed > 2048 x wire bytes" is the binding term; two gzip layers expand by more
+    # than 2048; the wire length m is tuned (FNAME padding of the outer member) so that an 8192-byte output block ends strictly between
+    # 2048*m and 2049*m for every residue of m mod 4 (needs m > 2048, 4096, 6144, 8192 for residues 3, 2, 1, 0)
+    for target in ((2563, 2567, 4098, 6145) if not th else (2563, 2567, 2571, 4098, 4102, 6145, 8196)):
+        pay = b"\x00" * (2049 * target + 5 * 8192)
+        inner = enc("gzip", pay)
+        c = zlib.compressobj(6, zlib.DEFLATED, -15)
+        raw = c.compress(inner) + c.flush()
+        fixed = 10 + 1 + len(raw) + 8
+        if target <= fixed:
+            continue
+        outer = (b"\x1f\x8b\x08\x08\x00\x00\x00\x00\x00\x03" + b"n" * (target - fixed) + b"\x00" + raw +
+                 struct.pack("<II", zlib.crc32(inner) & 0xffffffff, len(inner) & 0xffffffff))
+        assert len(outer) == target
+        head, framed = frame(outer, "cl", b"gzip, gzip", r)
+        for cname, chunks in (("whole", [head + framed]), ("headbody", [head, framed])):
+            cfg = dict(bomb=0)
+            cases.append(mk_case(cfg, chunks))
+            metas.append(Meta(name="bombedge", payload=pay, tokens=["gzip", "gzip"], actual=["gzipname", "gzip"], native=True, cfg=dict(cfg),
+                              maxchunk=max(len(x) for x in chunks), framing="cl", chunking=cname, wirebody=outer, complete=True))
     # 6. the wall-clock heuristic, made deterministic: the wrapped clock advances tstep usec per call
     p = ps[5][1] + ps[3][1] * 20
     for tokens, actual in ((["gzip"], ["gzip"]), (["gzip", "gzip"], ["gzip", "gzip"])):
